@@ -889,6 +889,9 @@ class BaseRequest:
 
     @cookies.setter
     def cookies(self, val):
+        # take the new cookies first: ``val`` may be a view of this very
+        # environ (``req.cookies = req.cookies``), empty once the header is gone
+        val = dict(val)
         self.environ.pop("HTTP_COOKIE", None)
         r = RequestCookies(self.environ)
         r.update(val)
